@@ -37,6 +37,17 @@ pub fn run(mut config: Config) -> ::anyhow::Result<()> {
         ));
     }
 
+    // The largest possible announce response (IPv6 peers) must fit in the
+    // socket workers' response buffer, otherwise it could never be sent
+    let max_response_peers_limit = (common::BUFFER_SIZE - 20) / 18;
+
+    if config.protocol.max_response_peers > max_response_peers_limit {
+        return Result::Err(anyhow::anyhow!(
+            "protocol.max_response_peers can not be greater than {}",
+            max_response_peers_limit
+        ));
+    }
+
     if config.socket_workers == 0 {
         config.socket_workers = available_parallelism().map(Into::into).unwrap_or(1);
     };
